@@ -5464,6 +5464,9 @@ class Symbol:
                 and self.orig_type
                 and ((not self.choice) or self.choice._user_selection is None)
             )
+            # A choice is set by the user as a whole (by selecting one of its symbols): as long as it has no user
+            # selection, the value of each choice symbol is inferred, whatever user value the symbol itself has.
+            or bool(self.choice and self.orig_type and self.choice._user_selection is None)
         )
 
     def value_is_valid(self, value: Any) -> bool:
